@@ -285,6 +285,39 @@ func (g *gen) addRing(nEDB int) {
 	g.p.Rules = append(g.p.Rules, Rule{Head: "gc", HArgs: []Expr{V("X")}, Body: []Lit{{K: LAtom, Pred: name(a), Args: []Expr{V("X")}}, {K: LAtom, Pred: name(b), Args: []Expr{V("X")}}}})
 }
 
+// AddNegativeCycle appends predicates zc0 .. zc(k-1) whose rules form a
+// dependency cycle through exactly one negated mention (zc0 negates the last,
+// every other member copies its predecessor): such a program has no
+// stratification and has to be refused however it is presented.
+func AddNegativeCycle(r *simrt.Run, p *Program) bool {
+	var src *PredInfo
+	for i := range p.Preds {
+		if p.Preds[i].EDB && len(p.Preds[i].Cols) >= 1 && !p.Preds[i].Cols[0].IsSet() {
+			src = &p.Preds[i]
+			break
+		}
+	}
+	if src == nil {
+		return false
+	}
+	t := src.Cols[0]
+	k := 2 + r.Choose(3, "gen.negcycle.k")
+	name := func(i int) string { return fmt.Sprintf("zc%d", i) }
+	srcArgs := []Expr{V("X")}
+	for range src.Cols[1:] {
+		srcArgs = append(srcArgs, V("_"))
+	}
+	for i := 0; i < k; i++ {
+		p.Preds = append(p.Preds, PredInfo{Name: name(i), Cols: []Ty{t}, Group: 700})
+	}
+	p.Rules = append(p.Rules, Rule{Head: name(0), HArgs: []Expr{V("X")}, Body: []Lit{
+		{K: LAtom, Pred: src.Name, Args: srcArgs}, {K: LNeg, Pred: name(k - 1), Args: []Expr{V("X")}}}})
+	for i := 1; i < k; i++ {
+		p.Rules = append(p.Rules, Rule{Head: name(i), HArgs: []Expr{V("X")}, Body: []Lit{{K: LAtom, Pred: name(i - 1), Args: []Expr{V("X")}}}})
+	}
+	return true
+}
+
 type varEnv struct {
 	byType map[Ty][]string
 	n      int
